@@ -10,7 +10,7 @@ VO_TARGETS = ["Properties/StreamState.vo"]
 
 PROFILES = {
     "C04": ("mixed", "reset", "limits", "shutdown", "queue", "bp"),
-    "C17": ("reset", "lastframe", "mixed", "queue", "lastframe", "shutdown", "limits"),
+    "C17": ("reset", "lastframe", "mixed", "lastframe", "queue", "lastframe", "shutdown", "limits"),
     "C07": ("shutdown", "reset", "queue", "mixed", "flow", "queue"),
     "C09": ("chaos", "legal", "race", "chaos", "race", "legal", "mixed"),
 }
